@@ -93,7 +93,8 @@ impl<'a, N: Normalizer> XmlSerializer<'a, N> {
                     space: false,
                     text: format!(
                         "<{}",
-                        self.fullname_serializer.element_fullname(element.name_id)?
+                        self.fullname_serializer
+                            .xml_element_fullname(element.name_id)?
                     ),
                 }
             }
@@ -116,7 +117,8 @@ impl<'a, N: Normalizer> XmlSerializer<'a, N> {
                         space: false,
                         text: format!(
                             "</{}>",
-                            self.fullname_serializer.element_fullname(element.name_id)?
+                            self.fullname_serializer
+                                .xml_element_fullname(element.name_id)?
                         ),
                     }
                 } else {
